@@ -7,51 +7,76 @@ import Mdns.Lemmas.ClientHost
 namespace Mdns.Client
 open Mdns Mdns.Rec Mdns.Cache
 
-/-- an entry with this owner name and RDATA is cached under `key` in the address table -/
-def Present (c : Cache) (key name : BList) (rd : RData) : Prop :=
-  ∃ e ∈ (c.addr.get key).getD [], e.record.name = name ∧ e.record.rdata = rd
+/-- an entry with this owner name and RDATA that has not expired at `now` is cached under `key`
+    in the address table -/
+def Present (c : Cache) (now : Nat) (key name : BList) (rd : RData) : Prop :=
+  ∃ e ∈ (c.addr.get key).getD [], e.record.name = name ∧ e.record.rdata = rd ∧ now < e.record.expires
 
-theorem flushOne_name_rdata (inc : Record) (now : Nat) (e : Entry) :
-    (flushOne inc now e).record.name = e.record.name ∧ (flushOne inc now e).record.rdata = e.record.rdata := by
+/-- what the lemmas below carry from an entry to its successor: owner name, RDATA, and being
+    unexpired at `now` -/
+def Keeps (now : Nat) (e e' : Entry) : Prop :=
+  e'.record.name = e.record.name ∧ e'.record.rdata = e.record.rdata ∧
+    (now < e.record.expires → now < e'.record.expires)
+
+theorem Keeps.refl (now : Nat) (e : Entry) : Keeps now e e := ⟨rfl, rfl, id⟩
+
+theorem Keeps.trans {now : Nat} {a b c : Entry} (h1 : Keeps now a b) (h2 : Keeps now b c) : Keeps now a c :=
+  ⟨h2.1.trans h1.1, h2.2.1.trans h1.2.1, fun h => h2.2.2 (h1.2.2 h)⟩
+
+theorem flushOne_keeps (inc : Record) (now : Nat) (e : Entry) : Keeps now e (flushOne inc now e) := by
   unfold flushOne
-  split <;> exact ⟨rfl, rfl⟩
+  split
+  · exact ⟨rfl, rfl, fun _ => by simp [Record.setExpire]⟩
+  · exact Keeps.refl now e
 
 theorem mem_flushList_of_mem (inc : Record) (now : Nat) (es : List Entry) (e : Entry) (he : e ∈ es) :
-    ∃ e' ∈ flushList inc now es, e'.record.name = e.record.name ∧ e'.record.rdata = e.record.rdata := by
+    ∃ e' ∈ flushList inc now es, Keeps now e e' := by
   unfold flushList
   split
-  · exact ⟨flushOne inc now e, List.mem_map_of_mem he, flushOne_name_rdata inc now e⟩
-  · exact ⟨e, he, rfl, rfl⟩
+  · exact ⟨flushOne inc now e, List.mem_map_of_mem he, flushOne_keeps inc now e⟩
+  · exact ⟨e, he, Keeps.refl now e⟩
 
-theorem mem_resetFirst_of_mem (inc : Record) : ∀ (es : List Entry) (e : Entry), e ∈ es →
-    ∃ e' ∈ resetFirst inc es, e'.record.name = e.record.name ∧ e'.record.rdata = e.record.rdata
+/-- the incoming record is not expired at `now`, neither as it is nor after a `reset_ttl` from it
+    (true of every record decoded at `now` with TTL ≥ 1) -/
+def IncLive (now : Nat) (inc : Record) : Prop := now < inc.expires ∧ now < expTime inc.created inc.ttl 100
+
+theorem incLive_ofWire (ifName : BList) (ifIdx now : Nat) (r : Wire.Rec) (h : 1 ≤ r.ttl) :
+    IncLive now (ofWire ifName ifIdx now r) := by
+  simp only [IncLive, ofWire, Record.new, expTime]
+  omega
+
+theorem mem_resetFirst_of_mem (inc : Record) (now : Nat) (hinc : IncLive now inc) : ∀ (es : List Entry) (e : Entry), e ∈ es →
+    ∃ e' ∈ resetFirst inc es, Keeps now e e'
   | [], _, h => by cases h
   | x :: rest, e, h => by
     simp only [resetFirst]
     split
     · rcases List.mem_cons.mp h with rfl | h
-      · exact ⟨_, List.mem_cons_self, rfl, rfl⟩
-      · exact ⟨e, List.mem_cons_of_mem _ h, rfl, rfl⟩
+      · exact ⟨_, List.mem_cons_self, rfl, rfl, fun _ => hinc.2⟩
+      · exact ⟨e, List.mem_cons_of_mem _ h, Keeps.refl now e⟩
     · rcases List.mem_cons.mp h with rfl | h
-      · exact ⟨e, List.mem_cons_self, rfl, rfl⟩
-      · obtain ⟨e', he', hh⟩ := mem_resetFirst_of_mem inc rest e h
+      · exact ⟨e, List.mem_cons_self, Keeps.refl now e⟩
+      · obtain ⟨e', he', hh⟩ := mem_resetFirst_of_mem inc now hinc rest e h
         exact ⟨e', List.mem_cons_of_mem _ he', hh⟩
 
-theorem mem_upsert_of_mem (srcName : BList) (srcIdx : Nat) (inc : Record) (es : List Entry) (e : Entry) (he : e ∈ es) :
-    ∃ e' ∈ upsert srcName srcIdx inc es, e'.record.name = e.record.name ∧ e'.record.rdata = e.record.rdata := by
+theorem mem_upsert_of_mem (srcName : BList) (srcIdx : Nat) (inc : Record) (now : Nat) (hinc : IncLive now inc)
+    (es : List Entry) (e : Entry) (he : e ∈ es) :
+    ∃ e' ∈ upsert srcName srcIdx inc es, Keeps now e e' := by
   unfold upsert
   split
-  · exact mem_resetFirst_of_mem inc es e he
-  · exact ⟨e, List.mem_cons_of_mem _ he, rfl, rfl⟩
+  · exact mem_resetFirst_of_mem inc now hinc es e he
+  · exact ⟨e, List.mem_cons_of_mem _ he, Keeps.refl now e⟩
 
 theorem noteSubtype_addr (c : Cache) (inc : Record) (forUs : Bool) : (noteSubtype c inc forUs).addr = c.addr :=
   table_noteSubtype c inc forUs .addr
 
-/-- `add_or_update` never removes an (owner name, RDATA) from the address table -/
+/-- `add_or_update` at `now` of a record that is not expired itself never removes an unexpired
+    (owner name, RDATA) from the address table: a cache-flush moves the expiry to `now + 1 s`, a
+    refresh to the expiry of the incoming record -/
 theorem present_addOrUpdate (c : Cache) (srcName : BList) (srcIdx : Nat) (inc : Record) (now : Nat) (forUs : Bool)
-    (key name : BList) (rd : RData) (h : Present c key name rd) :
-    Present (addOrUpdate c srcName srcIdx inc now forUs).cache key name rd := by
-  have h1 : Present (noteSubtype c inc forUs) key name rd := by
+    (hinc : IncLive now inc) (key name : BList) (rd : RData) (h : Present c now key name rd) :
+    Present (addOrUpdate c srcName srcIdx inc now forUs).cache now key name rd := by
+  have h1 : Present (noteSubtype c inc forUs) now key name rd := by
     unfold Present
     rw [noteSubtype_addr]
     exact h
@@ -64,22 +89,23 @@ theorem present_addOrUpdate (c : Cache) (srcName : BList) (srcIdx : Nat) (inc : 
     | addr =>
       by_cases hk : key = keyOf .addr inc.name
       · subst hk
-        obtain ⟨e, he, hn, hr⟩ := h1
+        obtain ⟨e, he, hn, hr, hl⟩ := h1
         split
-        · refine ⟨e, ?_, hn, hr⟩
+        · refine ⟨e, ?_, hn, hr, hl⟩
           simp only [Cache.setTable, Cache.table, Table.get_set_self, Option.getD_some]
           exact he
-        · obtain ⟨e1, he1, hn1, hr1⟩ := mem_flushList_of_mem inc now _ e he
-          obtain ⟨e2, he2, hn2, hr2⟩ := mem_upsert_of_mem srcName srcIdx inc _ e1 he1
-          refine ⟨e2, ?_, hn2.trans (hn1.trans hn), hr2.trans (hr1.trans hr)⟩
+        · obtain ⟨e1, he1, k1⟩ := mem_flushList_of_mem inc now _ e he
+          obtain ⟨e2, he2, k2⟩ := mem_upsert_of_mem srcName srcIdx inc now hinc _ e1 he1
+          have k := k1.trans k2
+          refine ⟨e2, ?_, k.1.trans hn, k.2.1.trans hr, k.2.2 hl⟩
           simp only [Cache.setTable, Cache.table, Table.get_set_self, Option.getD_some]
           exact he2
-      · obtain ⟨e, he, hn, hr⟩ := h1
+      · obtain ⟨e, he, hn, hr, hl⟩ := h1
         split
-        · refine ⟨e, ?_, hn, hr⟩
+        · refine ⟨e, ?_, hn, hr, hl⟩
           simp only [Cache.setTable, Cache.table, Table.get_set_ne _ _ _ _ hk]
           exact he
-        · refine ⟨e, ?_, hn, hr⟩
+        · refine ⟨e, ?_, hn, hr, hl⟩
           simp only [Cache.setTable, Cache.table, Table.get_set_ne _ _ _ _ hk]
           exact he
     | ptr => split <;> exact h1
@@ -93,7 +119,8 @@ theorem addOrUpdate_result_entry (c : Cache) (srcName : BList) (srcIdx : Nat) (i
     (sl : Slot) (hs : slotOf inc.ty = some sl) (e : Entry) (b : Bool)
     (h : (addOrUpdate c srcName srcIdx inc now forUs).result = some (e, b)) :
     e ∈ (((addOrUpdate c srcName srcIdx inc now forUs).cache.table sl).get (keyOf sl inc.name)).getD [] ∧
-    e.record.name = inc.name ∧ e.record.ty = inc.ty ∧ e.record.rdata = inc.rdata := by
+    e.record.name = inc.name ∧ e.record.ty = inc.ty ∧ e.record.rdata = inc.rdata ∧
+    (IncLive now inc → now < e.record.expires) := by
   unfold addOrUpdate at h ⊢
   simp only [hs] at h ⊢
   split at h
@@ -117,10 +144,10 @@ theorem addOrUpdate_result_entry (c : Cache) (srcName : BList) (srcIdx : Nat) (i
           Option.some.injEq] at hget
         subst hget
         obtain ⟨m1, m2, _, _, m5⟩ := (matchesRec_iff _ _).mp h3
-        exact ⟨m1, m2, m5⟩
+        exact ⟨m1, m2, m5, fun hl => hl.2⟩
       · simp only [List.getElem?_cons_zero, Option.some.injEq] at hget
         subst hget
-        exact ⟨rfl, rfl, rfl⟩
+        exact ⟨rfl, rfl, rfl, fun hl => hl.1⟩
 
 theorem ingestAll_append (q : List (BList × Nat)) (ifName : BList) (ifIdx now : Nat) (forUs : Bool) :
     ∀ (a b : List Wire.Rec) (acc : Ingest),
@@ -140,31 +167,34 @@ theorem ingestOne_changes_mono (q : List (BList × Nat)) (ifName : BList) (ifIdx
     | exact h
     | exact List.mem_append_left _ h
 
-/-- what is recorded and cached survives the rest of the datagram -/
+/-- what is recorded and cached unexpired survives the rest of the datagram (records with
+    TTL ≥ 1, as decoded from a response) -/
 theorem ingestAll_keeps (q : List (BList × Nat)) (ifName : BList) (ifIdx now : Nat) (forUs : Bool) (x : Nat × BList)
-    (key name : BList) (rd : RData) : ∀ (rs : List Wire.Rec) (acc : Ingest),
-    x ∈ acc.changes → Present acc.cache key name rd →
+    (key name : BList) (rd : RData) : ∀ (rs : List Wire.Rec) (acc : Ingest), (∀ r ∈ rs, 1 ≤ r.ttl) →
+    x ∈ acc.changes → Present acc.cache now key name rd →
     x ∈ (ingestAll q ifName ifIdx now forUs acc rs).changes ∧
-      Present (ingestAll q ifName ifIdx now forUs acc rs).cache key name rd
-  | [], _, h1, h2 => ⟨h1, h2⟩
-  | r :: rest, acc, h1, h2 => by
+      Present (ingestAll q ifName ifIdx now forUs acc rs).cache now key name rd
+  | [], _, _, h1, h2 => ⟨h1, h2⟩
+  | r :: rest, acc, httl, h1, h2 => by
     simp only [ingestAll]
-    apply ingestAll_keeps q ifName ifIdx now forUs x key name rd rest
+    apply ingestAll_keeps q ifName ifIdx now forUs x key name rd rest _
+      (fun r' hr' => httl r' (List.mem_cons_of_mem _ hr'))
     · exact ingestOne_changes_mono q ifName ifIdx now forUs acc r x h1
     · rw [ingestOne_cache]
-      exact present_addOrUpdate _ _ _ _ _ _ key name rd h2
+      exact present_addOrUpdate _ _ _ _ _ _ (incLive_ofWire ifName ifIdx now r (httl r List.mem_cons_self))
+        key name rd h2
 
 theorem slotOf_addr {ty : Nat} (h : ty = 1 ∨ ty = 28) : slotOf ty = some .addr := by
   rcases h with rfl | rfl <;> rfl
 
 /-- an address record that `add_or_update` reports as new is recorded as a change and cached -/
 theorem ingestOne_new_addr (q : List (BList × Nat)) (ifName : BList) (ifIdx now : Nat) (forUs : Bool) (acc : Ingest)
-    (r : Wire.Rec) (hty : r.ty = 1 ∨ r.ty = 28) (e : Entry)
+    (r : Wire.Rec) (hty : r.ty = 1 ∨ r.ty = 28) (httl : 1 ≤ r.ttl) (e : Entry)
     (hnew : (addOrUpdate acc.cache ifName ifIdx (ofWire ifName ifIdx now r) now forUs).result = some (e, true)) :
     (r.ty, r.name) ∈ (ingestOne q ifName ifIdx now forUs acc r).changes ∧
-    Present (ingestOne q ifName ifIdx now forUs acc r).cache (lower r.name) r.name (ofWire ifName ifIdx now r).rdata := by
+    Present (ingestOne q ifName ifIdx now forUs acc r).cache now (lower r.name) r.name (ofWire ifName ifIdx now r).rdata := by
   have hs : slotOf (ofWire ifName ifIdx now r).ty = some .addr := slotOf_addr hty
-  obtain ⟨hmem, hn, ht, hr⟩ := addOrUpdate_result_entry _ _ _ _ _ _ .addr hs e true hnew
+  obtain ⟨hmem, hn, ht, hr, hlive⟩ := addOrUpdate_result_entry _ _ _ _ _ _ .addr hs e true hnew
   refine ⟨?_, ?_⟩
   · unfold ingestOne
     simp only [hnew]
@@ -176,29 +206,36 @@ theorem ingestOne_new_addr (q : List (BList × Nat)) (ifName : BList) (ifIdx now
     rw [ht, hn]
     exact List.mem_append_right _ List.mem_cons_self
   · rw [ingestOne_cache]
-    exact ⟨e, hmem, hn, hr⟩
+    exact ⟨e, hmem, hn, hr, hlive (incLive_ofWire ifName ifIdx now r httl)⟩
 
-/-- the group of an owner name that is present lists its address -/
-theorem group_of_present (c : Cache) (name : BList) (ip ifName : BList) (ifIdx : Nat)
-    (h : Present c (lower name) name (.addr ip ifName ifIdx)) :
-    ∃ addrs, (name, addrs) ∈ addressesForHost c name ∧ (ip, ifName, ifIdx) ∈ addrs := by
-  obtain ⟨e, he, hn, hr⟩ := h
-  refine ⟨((((c.addr.get (lower name)).getD []).filter fun e => e.record.name == name).filterMap addrItemOf).eraseDups,
-    ?_, ?_⟩
-  · simp only [addressesForHost, List.mem_map, List.mem_eraseDups]
-    exact ⟨name, ⟨e, he, hn⟩, rfl⟩
+/-- the group of an owner name that is present unexpired lists its address -/
+theorem group_of_present (c : Cache) (now : Nat) (name : BList) (ip ifName : BList) (ifIdx : Nat)
+    (h : Present c now (lower name) name (.addr ip ifName ifIdx)) :
+    ∃ addrs, (name, addrs) ∈ addressesForHost c now name ∧ (ip, ifName, ifIdx) ∈ addrs := by
+  obtain ⟨e, he, hn, hr, hl⟩ := h
+  have hitem : addrItemOf e = some (ip, ifName, ifIdx) := by simp [addrItemOf, hr]
+  have hlive : (!e.record.isExpired now && (addrItemOf e).isSome) = true := by
+    simp [Record.isExpired, hl, hitem]
+  refine ⟨(((((c.addr.get (lower name)).getD []).filter fun e =>
+      !e.record.isExpired now && (addrItemOf e).isSome).filter
+      fun e => e.record.name == name).filterMap addrItemOf).eraseDups, ?_, ?_⟩
+  · simp only [addressesForHost, List.mem_map, List.mem_eraseDups, List.mem_filter]
+    exact ⟨name, ⟨e, ⟨he, hlive⟩, hn⟩, rfl⟩
   · simp only [List.mem_eraseDups, List.mem_filterMap, List.mem_filter, beq_iff_eq]
-    exact ⟨e, ⟨he, hn⟩, by simp [addrItemOf, hr]⟩
+    exact ⟨e, ⟨⟨he, hlive⟩, hn⟩, hitem⟩
 
 /-- **`AddressesFound` is complete (one datagram).**  `handle_response` reads the records
     `pre ++ r :: post`; `r` is an A / AAAA record with address `ip` whose name is being
     resolved on channel `ch`; when its turn comes `add_or_update` reports it as new (a record
     not cached yet, or a withdrawn one announced again - `Props.C04.revived_is_new`).  Then an
     `AddressesFound` for that owner name listing `ip` with the receiving interface goes to
-    `ch` in this very `handle_response`. -/
+    `ch` in this very `handle_response`.  (`httl`: the record and those read after it have
+    TTL ≥ 1, as every record decoded from a response has - `Wire.readRR_spec`; the list is made
+    of the entries that are unexpired at `now`.) -/
 theorem hfound_complete_response (s : State) (now : Nat) (intf : Intf) (m : Wire.Msg) (pre : List Wire.Rec)
     (r : Wire.Rec) (post : List Wire.Rec) (ch : Nat) (ip : BList) (e : Entry)
     (hrecs : m.answers ++ m.authorities ++ m.additionals = pre ++ r :: post)
+    (httl : ∀ x ∈ r :: post, 1 ≤ x.ttl)
     (hty : r.ty = 1 ∨ r.ty = 28) (hrd : r.rdata = .a ip ∨ r.rdata = .aaaa ip)
     (hch : resolverChan s r.name = some ch)
     (hnew : (addOrUpdate
@@ -207,12 +244,13 @@ theorem hfound_complete_response (s : State) (now : Nat) (intf : Intf) (m : Wire
         intf.name intf.idx (ofWire intf.name intf.idx now r) now (isForUs s m.answers)).result = some (e, true)) :
     ∃ addrs, Out.event ch (.hfound r.name addrs) ∈ (handleResponse s now intf m).2 ∧
       (ip, intf.name, intf.idx) ∈ addrs := by
-  have h1 := ingestOne_new_addr s.queriers intf.name intf.idx now (isForUs s m.answers) _ r hty e hnew
+  have h1 := ingestOne_new_addr s.queriers intf.name intf.idx now (isForUs s m.answers) _ r hty
+    (httl r List.mem_cons_self) e hnew
   have hrdata : (ofWire intf.name intf.idx now r).rdata = .addr ip intf.name intf.idx := by
     rcases hrd with h | h <;> simp [ofWire, Record.new, h]
   rw [hrdata] at h1
   have h2 := ingestAll_keeps s.queriers intf.name intf.idx now (isForUs s m.answers) (r.ty, r.name) (lower r.name)
-    r.name (.addr ip intf.name intf.idx) post _ h1.1 h1.2
+    r.name (.addr ip intf.name intf.idx) post _ (fun x hx => httl x (List.mem_cons_of_mem _ hx)) h1.1 h1.2
   have hfinal : ingestAll s.queriers intf.name intf.idx now (isForUs s m.answers)
       { cache := s.cache, timers := [], changes := [], outs := [] } (m.answers ++ m.authorities ++ m.additionals) =
       ingestAll s.queriers intf.name intf.idx now (isForUs s m.answers)
@@ -221,7 +259,7 @@ theorem hfound_complete_response (s : State) (now : Nat) (intf : Intf) (m : Wire
             { cache := s.cache, timers := [], changes := [], outs := [] } pre) r) post := by
     rw [hrecs, ingestAll_append]
     rfl
-  obtain ⟨addrs, hg, hip⟩ := group_of_present _ r.name ip intf.name intf.idx h2.2
+  obtain ⟨addrs, hg, hip⟩ := group_of_present _ now r.name ip intf.name intf.idx h2.2
   refine ⟨addrs, ?_, hip⟩
   unfold handleResponse
   simp only [List.mem_append]
